@@ -698,13 +698,6 @@ Proof.
   - discriminate.
 Qed.
 
-(* decoding a minimal head *)
-Lemma dec_head major n ext :
-  n < 2 ^ 64 -> write_major major n = (major * 32 + info_of n) :: ext ->
-  forall rest, read_len (info_of n) (ext ++ rest) = Ok (n, rest) ->
-  True.
-Proof. auto. Qed.
-
 Lemma enc_int_dec z f rest :
   (- 2 ^ 64 <= z < 2 ^ 64)%Z ->
   dec_value (S f) (enc_int z ++ rest) = Ok (VInt z, rest).
